@@ -30,7 +30,7 @@ type GenOpts struct {
 func DefaultOpts() GenOpts {
 	return GenOpts{MaxTasks: 10, PredPct: 20, FallbackPct: 20, InstrPct: 30,
 		Spellings:  []int{SpLit, SpLit, SpLit, SpTop, SpMethod, SpVar, SpGeneric, SpMethodVal},
-		Kinds:      []TKind{KNamedInt, KNamedInt, KStruct, KPtr, KSlice, KMap, KGeneric, KNamedSlice, KU64, KI64, KStr, KArr, KBytes, KAny, KFuncT, KAnon, KAlias},
+		Kinds:      []TKind{KNamedInt, KNamedInt, KStruct, KPtr, KSlice, KMap, KGeneric, KNamedSlice, KU64, KI64, KStr, KArr, KBytes, KAny, KFuncT, KAnon, KAlias, KF64},
 		WrapPct:    40,
 		BarePct:    12,
 		ImportPct:  20,
